@@ -64,10 +64,37 @@ def check(ctx, world):
                    "state saved by %s restored as %s: %s, expected %s on every path"
                    % (wname, rname, "RETURNS an instance" if rets else "raises %s" % excs, want),
                    (rets[0].site if rets else outs[0].site if outs else None))
-    # ---- fingerprint guard with a different parameter object
+    # ---- shared-object fields that session code writes (a cache on the parameter object ...):
+    # under an arbitrary history such a field holds an arbitrary earlier value
+    shared = set()
     for cname, cm in models.items():
+        logs = []
+        for outs in cm.serialize + cm.finish + [cm.start]:
+            logs += [o.state.log for o in outs]
         so = blobs[cname]
+        logs += [o.state.log for o in session.restore(world, ev, cm.cls, so.value, so.state.fork(), cm.params)]
+        for lg in logs:
+            for rec in lg:
+                if rec[0] == "store" and isinstance(rec[1], Obj) and rec[1] == cm.params \
+                        and not str(rec[4][2]).endswith(rec[1].cls.name + ".__init__"):
+                    shared.add(rec[2])       # (the object's own constructor is not session code)
+    guard_pass(ctx, world, ev, models, blobs, (), "")
+    if shared:
+        ctx.note("fields of the shared parameter object written by session code: %s - re-checked with arbitrary (stale) contents" % sorted(shared))
+        guard_pass(ctx, world, ev, models, blobs, tuple(sorted(shared)), " [any history: stale %s]" % ",".join(sorted(shared)))
+
+
+def guard_pass(ctx, world, ev, models, blobs, havoc, tag):
+    """Fingerprint guard / coverage with a different parameter object; `havoc` = fields of the
+    shared parameter object that hold arbitrary values left by earlier sessions."""
+    from ..terms import DictV
+    for cname, cm in models.items():
+        cname_ = cname
+        cname = cname + tag
+        so = blobs[cname_]
         st2, params2 = session.build_params(world, ev, so.state.fork(), group=Sym("G2"))
+        for f_ in havoc:
+            st2.heap[params2.oid][f_] = Sym("stale:" + f_)
         base = len(st2.pc)
         outs = session.restore(world, ev, cm.cls, so.value, st2.fork(), params2)
         rets = session.rets(outs)
@@ -107,9 +134,9 @@ def check(ctx, world):
         # ---- Z6 coverage
         pf2 = st2.heap[params2.oid]
         pf1 = so.state.heap[cm.params.oid]
-        used = blinding_elements(cm, pf1)
+        used = blinding_elements(cm, {k: v for k, v in pf1.items() if k not in havoc})
         ctx.require(used, "%s: no parameter element is used by start()/finish()" % cname)
-        want = {"SPAKE2_A": {"M", "N"}, "SPAKE2_B": {"M", "N"}, "SPAKE2_Symmetric": {"S"}}[cname]
+        want = {"SPAKE2_A": {"M", "N"}, "SPAKE2_B": {"M", "N"}, "SPAKE2_Symmetric": {"S"}}[cname_]
         ctx.ob("Z6-role", cname, used == want, "role uses parameter elements %s" % sorted(used) if used == want else
                "role uses parameter elements %s, expected %s" % (sorted(used), sorted(want)))
         for g in sorted(guard_terms, key=lambda t: t._key):
